@@ -523,10 +523,12 @@ class WcsSampler(object):
             hi2 = min(e2 + 1, coarse_lat.shape[1] - 1)
 
             # Now figure out how many samples to compute in our refined grid.
-            # We want to sample essentially every pixel.
+            # We want to sample essentially every pixel, and always both ends of
+            # the interval: `np.linspace()` with a single sample yields only the
+            # low end, which would silently drop the image edge.
 
-            n1 = max(int(np.ceil(coarse_idx1[hi1] - coarse_idx1[lo1])), 1)
-            n2 = max(int(np.ceil(coarse_idx2[hi2] - coarse_idx2[lo2])), 1)
+            n1 = max(int(np.ceil(coarse_idx1[hi1] - coarse_idx1[lo1])), 2)
+            n2 = max(int(np.ceil(coarse_idx2[hi2] - coarse_idx2[lo2])), 2)
 
             # Generate that grid.
 
@@ -592,7 +594,7 @@ class WcsSampler(object):
                 # "top" edge (thinking of array as [lon, lat] ~ [x, y])
                 lo = max(e - 1, 0)
                 hi = min(e + 1, nm)
-                n = max(int(np.ceil(coarse_idx1[hi] - coarse_idx1[lo])), 1)
+                n = max(int(np.ceil(coarse_idx1[hi] - coarse_idx1[lo])), 2)
                 refined_idx1 = np.linspace(coarse_idx1[lo], coarse_idx1[hi], n)
                 refined_idx2 = np.zeros(n) + coarse_idx2[0]
             elif e < 2 * nm:
@@ -600,7 +602,7 @@ class WcsSampler(object):
                 rel = e - nm
                 lo = max(rel - 1, 0)
                 hi = min(rel + 1, nm)
-                n = max(int(np.ceil(coarse_idx2[hi] - coarse_idx2[lo])), 1)
+                n = max(int(np.ceil(coarse_idx2[hi] - coarse_idx2[lo])), 2)
                 refined_idx1 = np.zeros(n) + coarse_idx1[nm]
                 refined_idx2 = np.linspace(coarse_idx2[lo], coarse_idx2[hi], n)
             elif e < 3 * nm:
@@ -608,7 +610,7 @@ class WcsSampler(object):
                 rel = 3 * nm - (1 + e)
                 lo = max(rel - 1, 0)
                 hi = min(rel + 1, nm)
-                n = max(int(np.ceil(coarse_idx1[hi] - coarse_idx1[lo])), 1)
+                n = max(int(np.ceil(coarse_idx1[hi] - coarse_idx1[lo])), 2)
                 refined_idx1 = np.linspace(coarse_idx1[lo], coarse_idx1[hi], n)
                 refined_idx2 = np.zeros(n) + coarse_idx2[nm]
             else:
@@ -617,7 +619,7 @@ class WcsSampler(object):
                 rel = 4 * nm - e
                 lo = max(rel - 1, 0)
                 hi = min(rel + 1, nm)
-                n = max(int(np.ceil(coarse_idx2[hi] - coarse_idx2[lo])), 1)
+                n = max(int(np.ceil(coarse_idx2[hi] - coarse_idx2[lo])), 2)
                 refined_idx1 = np.zeros(n) + coarse_idx1[0]
                 refined_idx2 = np.linspace(coarse_idx2[lo], coarse_idx2[hi], n)
 
